@@ -67,6 +67,7 @@ let parse_op line =
   | "CANCEL" :: j :: _ -> OpCancel (n_of_int (ios j))
   | "FORGET" :: j :: _ -> OpForget (n_of_int (ios j))
   | "PRUNE" :: _ -> OpPrune
+  | "PRUNEW" :: _ -> OpPrune      (* the same request on its own connection while the journal flush is held: no await may lie between snapshot and hand-over *)
   | "SUBMITW" :: n :: rq :: prio :: _ ->
       (* `hq submit --wait`: for the state it is a plain submit of a new closed job with ids 0..n-1 *)
       OpSubmit (None, List.init (ios n) n_of_int, None, parse_rq rq, z_of_int (ios prio), CUnl, false, None)
@@ -761,6 +762,17 @@ let process_trace header lines =
                   let ids = parse_tids ts in
                   let backlog = try fst (Hashtbl.find prev_wk (ios w)) with Not_found -> [] in
                   item (IRetractAck (n_of_int (ios w), List.filter (fun t -> List.mem t backlog) ids))
+              | "PRUNE" :: "late" :: rest ->
+                  (* a prune request that reached the journal thread only after the held flush was released:
+                     its snapshot is stale if a job that is live now is missing (C12: prune must not change
+                     what a restart restores) *)
+                  let jobs = match List.find_opt (fun x -> String.length x > 5 && String.sub x 0 5 = "jobs=") rest with
+                    | Some x -> parse_ints ',' (String.sub x 5 (String.length x - 5))
+                    | None -> [] in
+                  let live = List.filter_map (fun j -> if j.j_open || List.exists (fun (_, v) -> v = JW || v = JR) j.j_tasks then Some (int_of_n j.j_id) else None) !ihq in
+                  (match List.filter (fun j -> not (List.mem j jobs)) live with
+                   | [] -> ()
+                   | missing -> add_mon (Printf.sprintf "M C12 FAIL prune-live-set-stale live jobs %s are not in the snapshot the journal thread received" (String.concat "," (List.map si missing))))
               | "CORE" :: _ -> (
                   match !state with Some ms -> icore := Some (parse_core_line (String.sub body 5 (String.length body - 5)) ms.s_core) | None -> ())
               | "WRK" :: _ -> ( match !icore with Some c -> icore := Some { c with c_workers = parse_wrk_line (String.sub body 4 (String.length body - 4)) } | None -> ())
